@@ -282,7 +282,7 @@ class Node:
         return getattr(self.ast, "lineno", 0)
 
     def text(self) -> str:
-        if self.kind in ("entry", "exit", "exit_e", "exit_b"):
+        if self.kind in ("entry", "exit", "exit_e", "exit_b", "falloff"):
             return f"<{self.kind}>"
         if self.kind == "test":
             return f"if {short(self.ast, 70)}"
@@ -348,7 +348,11 @@ class CFG:
         def top_exc(kind):
             return self.exit_e if self.h.exit_class(kind) == "e" else self.exit_b
 
-        ctx = Ctx(self.exit, top_exc, self.exit)
+        # falling off the end of the body goes through a distinct pseudo node, so rules can
+        # tell `return x` from an implicit `return None`
+        self.falloff = self._new("falloff")
+        self._edge(self.falloff, "fall", self.exit)
+        ctx = Ctx(self.falloff, top_exc, self.exit)
         body = fn.node.body if isinstance(fn.node.body, list) else [ast.Return(value=fn.node.body)]
         first = self._seq(body, ctx)
         self._edge(self.entry, "n", first)
